@@ -10,10 +10,10 @@
   `clamps_float`, `clamps_ordinary_float`, `stored_not_nan_float`, `nan_inherited_line_float`, `pending_eq_groups_float`.
 -/
 import RosuModel.Props.C12Exact
-import RosuModel.Lemmas.FloatModelOrder
+import RosuModel.Lemmas.FloatModelCompare
 set_option linter.unusedSectionVars false
 namespace Rosu.C12
-open Rosu Rosu.FM
+open Rosu Rosu.FMO
 
 /-! ## the law structures, for every scalar with IEEE comparisons -/
 
